@@ -148,7 +148,7 @@ pub fn generate(rng: &mut Rng, tier: Tier) -> Plan {
         s
     };
     let df_like = interp == "linear_zero_rate" || rng.chance(0.5);
-    let mut nodes = Vec::new();
+    let mut nodes: Vec<NodeSpec> = Vec::new();
     let prefix = "u_";
     for (i, d) in days.iter().enumerate() {
         let v = if df_like {
@@ -161,6 +161,12 @@ pub fn generate(rng: &mut Rng, tier: Tier) -> Plan {
             }
         } else {
             rng.log_uniform(0.05, 20.0)
+        };
+        // round / repeated values: ln(1) = 0, equal neighbours give zero slopes
+        let v = match rng.below(12) {
+            0 => 1.0,
+            1 if !nodes.is_empty() => nodes[nodes.len() - 1].num.value(),
+            _ => v,
         };
         nodes.push(NodeSpec {
             ts: d * DAY + if intraday { rng.i64_in(0, DAY - 1) } else { 0 },
